@@ -223,34 +223,35 @@ theorem loop_condition_runs_once_more (fns : List FnDef) (c : Expr) (b : Block) 
 
 /-! ### T2 — lowerS_trace: the lowering model makes the calls of the specification
 
-  Full statement (`lowerS_trace`): for every function of every program,
-  `lowerFn` is defined and its structured MIR, run from a store that agrees
-  with the arguments, returns the specification's value with the
-  specification's trace.
+  Full statement (`lowerS_trace`): for every function of every program, the
+  real MIR of the function — as a label CFG, `drop` instructions included —
+  run from a store that agrees with the arguments returns the specification's
+  value with the specification's trace.
 
-  Proved here as `lowerS_trace_partial`: the same for every function whose
-  lowering is defined in this version of the model (`lowerFn fd = some code`),
-  i.e. built from literals, variables, host calls and method calls (receiver
-  and arguments), the strict binary operators, `&&`, `||`, `!`, unary `-`,
-  `if`/`else`, `if`, blocks with `let` and expression statements, assignment,
-  compound assignment, `while` (any number of iterations), `return`,
-  `accept`/`reject` (the operand stays lazy until it is stored in the variant),
-  `Option.Some`/`Option.None` and `?` (leaves the function on `None`), record
-  literals (fields left to right, each stored before the next is lowered) and
-  field access (`x.f` is a lazy path read, `e.f` materialises `e`), and `match`
-  (`r#match` / `match_case`: examinee materialised once, discriminant switch,
-  one guard chain per discriminant with the `_` arms woven in in source order,
-  binders assigned from the examinee's fields before the guard, shared arm
-  blocks, the default chain only when some variant has no case of its own).
-  Enum constructors `E.V(args…)`: every argument lowered and materialised
-  before the next, then the fields stored. Script-function calls: arguments as
-  for host calls, then the callee's structured MIR runs from a store holding
-  its parameters (recursion allowed). F-strings: the parts converted
-  (`to_string`) and appended one after the other.
-  Missing from the model (and so from the theorem): `for` and list literals
-  (lists are shared handles: the model has no heap); a `match` whose patterns
-  name a variant the examinee's type does not have; `drop` instructions and the `stack_slots` bookkeeping; the
-  passage from structured MIR to the block/label CFG. -/
+  Proved here as `lowerS_trace_partial`: the same for the *structured* MIR of
+  the lowering model `Model/LowerS.lean`, which now covers every construct of
+  the core language: literals, variables, host and method calls (receiver and
+  arguments), script-function calls (the callee's structured MIR runs from a
+  store holding its parameters; recursion allowed), strict binary operators,
+  `&&`, `||`, `!`, unary `-`, `if`/`else`, `if`, blocks with `let` and
+  expression statements, assignment, compound assignment, `while` and `for`
+  (any number of iterations), `return`, `accept`/`reject` (the operand stays
+  lazy until it is stored in the variant), `Option.Some`/`Option.None`, `?`,
+  enum constructors, record literals, field access (`x.f` is a lazy path read,
+  `e.f` materialises `e`), list literals, f-strings, and `match` (examinee
+  materialised once, discriminant switch, one guard chain per discriminant
+  with the `_` arms woven in in source order, binders assigned before the
+  guard, shared arm blocks, the default chain only when some variant has no
+  case of its own).
+  What keeps the `_partial`: `lowerE` is undefined (and the theorem silent) for
+  a `match` whose patterns name a variant the examinee's type does not have
+  and for a compound assignment with a comparison operator (both ill-typed);
+  the model leaves out `drop` instructions and the `stack_slots` bookkeeping
+  (no effect on host calls); lists are shared handles and the model has no
+  heap — the `push` through the cloned handle carries the temporary it was
+  cloned from as a ghost annotation; the layout of structured MIR as a label
+  CFG is done by the driver for the comparison with the real MIR, not by a
+  proved function. -/
 
 open RotoV.LowerS in
 /-- Expression level: running the code emitted for `e` and then evaluating the
@@ -459,6 +460,16 @@ def demoFn6 : FnDef :=
   ⟨[0], .last (.fstr (.str "a" (.expr (emitVar 1 0) (.str "-" (.expr (emitB 2 true) .nil)))))⟩
 example : (lowerFn demoFn6).isSome = true := by decide
 example : (evalBlock [] 40 [(0, .int 4)] demoFn6.body).tr = [⟨0, [.int 1, .int 4]⟩, ⟨1, [.int 2, .bool true]⟩] := by decide
+-- … list elements left to right, `for` once per element in order:
+-- `{ let x1 = 0; for x2 in [emit(1, x0), 5] { x1 += emit(2, x2); }; x1 }`
+def demoFn7 : FnDef :=
+  ⟨[0], .let_ 1 (.lit (.int 0))
+    (.stmt (.for 2 (.list (.cons (emitVar 1 0) (.cons (.lit (.int 5)) .nil))) (.stmt (.cassign .add 1 (emitVar 2 2)) .nil))
+    (.last (.var 1)))⟩
+example : (lowerFn demoFn7).isSome = true := by decide
+example : bodyValue (evalBlock [] 40 [(0, .int 4)] demoFn7.body).out = some (.int 9) := by decide
+example : (evalBlock [] 40 [(0, .int 4)] demoFn7.body).tr
+    = [⟨0, [.int 1, .int 4]⟩, ⟨0, [.int 2, .int 4]⟩, ⟨0, [.int 2, .int 5]⟩] := by decide
 end nonvacuity
 
 end RotoV.C08
